@@ -1392,13 +1392,21 @@ impl CompileState<'_> {
             false
         };
 
+        // Fallback: distinct literal patterns each cover exactly one value, so they are
+        // exhaustive when there are as many of them as the type has values. Binding
+        // patterns (`Ok(x)`, `Err(e)`, `Some(x)`) must not be counted here: they overlap
+        // the literals of their variant and are accounted for by the checks above.
+        let literal_count = all_values
+            .iter()
+            .filter(|(v, _)| !is_binding_pattern(v))
+            .count();
         let missing_default = default_count == 0
             && !result_exhaustive
             && !optional_exhaustive
             && self
                 .m
                 .cardinality(&scrutinee_type.inner)
-                .is_none_or(|c| c > all_values.len() as u64);
+                .is_none_or(|c| c > literal_count as u64);
 
         if missing_default {
             return Err(self.err(MissingDefaultPattern(span)));
@@ -1928,6 +1936,17 @@ impl CompileState<'_> {
             self.identifier_types.exit_block();
         }
         Ok(output)
+    }
+}
+
+/// Is this match pattern a binding pattern, i.e. `Ok(x)`, `Err(e)` or `Some(x)` with an
+/// identifier inside?
+fn is_binding_pattern(pattern: &ExprKind) -> bool {
+    match pattern {
+        ExprKind::Ok(inner) | ExprKind::Err(inner) | ExprKind::Optional(Some(inner)) => {
+            matches!(inner.inner, ExprKind::Identifier(_))
+        }
+        _ => false,
     }
 }
 
